@@ -214,6 +214,11 @@ def oracle(case, micro, rows):
             n = len([v for v in r["items"].split(",") if v]) + len([v for v in r["ready"].split(",") if v])
             if int(occ) != n:
                 viol.append((i, "C11: occupancy = %s but the fleet holds %d items" % (occ, n)))
+            nready = len([v for v in r["ready"].split(",") if v])
+            ngres = len([v for v in r.get("getres", "").split(",") if v])
+            if cg == "true" and nready <= ngres:
+                viol.append((i, "the fleet offers an item to the destination (can_get) although none of the %d item(s) whose round trip "
+                                "is over is unreserved (%d held or travelling)" % (nready, n - nready)))
             for j, kind, flag, what in ((i + 1, "RPUT", cp, "can_put"), (i + 3, "RGET", cg, "can_get")):
                 if j < len(micro) and micro[j][0] == kind and rows[j]["res"].startswith("tok:"):
                     granted = rows[j]["res"][4:] in rows[j]["trig"].split(",")
